@@ -263,6 +263,25 @@ theorem order_independent (k1 k2 k1' k2' : CoseKey) (ord : CborOrdering)
   | lexicographic => exact labelLe_antisymm a.1 b.1 (hv a ha1) (hv b hb1) hab hba
   | lengthFirstLexicographic => exact canonLe_antisymm a.1 b.1 (hv a ha1) (hv b hb1) hab hba
 
+/-- hence two keys with the same typed fields and the same extra label-value pairs in any two orders canonicalise
+    to the *same key* — and so to the same bytes. -/
+theorem order_independent_key (k1 k2 k1' k2' : CoseKey) (ord : CborOrdering)
+    (hv : ∀ p ∈ k1.params, ValidLabel p.1) (hnd : (k1.params.map (·.1)).Nodup)
+    (hf : k1.kty = k2.kty ∧ k1.keyId = k2.keyId ∧ k1.alg = k2.alg ∧ k1.keyOps = k2.keyOps ∧ k1.baseIv = k2.baseIv)
+    (hp : k1.params.Perm k2.params)
+    (h1 : k1.canonicalize ord = .ok k1') (h2 : k2.canonicalize ord = .ok k2') :
+    k1' = k2' ∧ toVec CoseKey.toValue k1' = toVec CoseKey.toValue k2' := by
+  have hpar := order_independent k1 k2 k1' k2' ord hv hnd hp h1 h2
+  obtain ⟨a1, a2, a3, a4, a5, _⟩ := perm k1 k1' ord h1
+  obtain ⟨b1, b2, b3, b4, b5, _⟩ := perm k2 k2' ord h2
+  obtain ⟨f1, f2, f3, f4, f5⟩ := hf
+  have : k1' = k2' := by
+    cases k1'; cases k2'
+    simp only [CoseKey.mk.injEq]
+    simp only at a1 a2 a3 a4 a5 b1 b2 b3 b4 b5 hpar
+    exact ⟨by rw [a1, b1, f1], by rw [a2, b2, f2], by rw [a3, b3, f3], by rw [a4, b4, f4], by rw [a5, b5, f5], hpar⟩
+  exact ⟨this, by rw [this]⟩
+
 def witness2a : CoseKey := ⟨.assigned Gen.idx_KeyType_Symmetric, [], none, [], [], [(.int (-1), .null), (.text [0x61], .bool true), (.int 7, .null)]⟩
 def witness2b : CoseKey := ⟨.assigned Gen.idx_KeyType_Symmetric, [], none, [], [], [(.int 7, .null), (.int (-1), .null), (.text [0x61], .bool true)]⟩
 /-- the hypotheses are satisfiable by a non-trivial pair of keys (labels -1, "a", 7 in two different orders). -/
@@ -290,6 +309,7 @@ theorem sorted_refuted :
 #print axioms sorted
 #print axioms idempotent
 #print axioms order_independent
+#print axioms order_independent_key
 #print axioms sorted_refuted
 
 end Coset.Props.C20
